@@ -83,7 +83,7 @@ impl<K: El, V: El> Sess<K, V> {
 }
 
 fn cfg_of(elem: ElemKind, bh: Bh, cap: usize, check_every: u64, cursor_every: u64, focus: &'static str) -> Cfg {
-    Cfg { elem, bh, cap, check_every, cursor_every, focus }
+    Cfg { elem, bh, cap, check_every, cursor_every, focus, ledger_only: false }
 }
 
 // ------------------------------------------------------------------------------------------
